@@ -102,7 +102,23 @@ def showForest (status : String) (m : MState) : MState × String :=
     | some (k, ns) => s!"{k}[{showChain ns}]") ""
   ({ m with ids := now, nextId := next }, s!"{status} live={h.live} ser=11{body}")
 
+/-- `assignraw a b`: copy assignment WITHOUT the well-formedness guard, executed literally on the pointer model
+    (used only to reproduce the recorded finding that assigning from a layer the target owns reads destroyed storage) -/
+def stepAssignRaw (m : MState) (a b : Ref) : MState × String :=
+  match resolve m.st a, resolve m.st b with
+  | some x, some y =>
+    let h' := if classEq m.st.heap x y then assignSame m.st.heap x y else assignBase m.st.heap x y
+    if h'.faults > m.st.heap.faults then (m, "FAULT model: the source layer is destroyed before its members are copied")
+    else showForest "ok" { m with st := { m.st with heap := h' } }
+  | _, _ => showForest "illformed" m
+
 def step (m : MState) (line : String) : MState × String :=
+  match words line with
+  | ["assignraw", a, d, b, e] =>
+    match nat? a, nat? d, nat? b, nat? e with
+    | some a, some d, some b, some e => stepAssignRaw m ⟨a, d⟩ ⟨b, e⟩
+    | _, _, _, _ => (m, "bad-op")
+  | _ =>
   match parseOp (words line) with
   | none => (m, "bad-op")
   | some op =>
